@@ -115,8 +115,9 @@ class World:
     def add_file(self, path, content, group=None):
         """returns False (and does nothing) when the path collides with an existing file or directory"""
         path = tuple(path)
-        if path in self.dirs or any(path[:k] in self.files for k in range(1, len(path))):
+        if path in self.dirs or any(path[:k] in self.files or path[:k] in self.symlinks for k in range(1, len(path))):
             return False
+        self.symlinks.pop(path, None)       # a regular file replaces a symbolic link of the same name
         if any(q[:len(path)] == path and len(q) > len(path) for q in self.files):
             return False
         for k in range(1, len(path)):
@@ -700,6 +701,29 @@ def gen_world_many_candidates(rng, k):
         w.add_file((b"extra", b"x%04d" % i), body)
     w.add_file((b"bystander", b"note.txt"), b"do not touch")
     w.tag = "many candidates (%d per file)" % k
+    return w
+
+
+def gen_world_many_pieces(rng):
+    """C05: one or two single-file torrents of 12-60 tiny pieces each; the file of one of them may be absent from
+    the scan directories (its pieces are rejected at once), so that one worker runs dry and rebalances while the
+    others still hold work — the schedules in which queue locks are contended"""
+    w = World()
+    n = rng.choice([1, 2, 2])
+    w.dirs.add(w.export)
+    w.scan = [(b"scan0",)]
+    w.add_file((b"scan0", b".keep"), b"k")
+    for i in range(n):
+        L = rng.choice([1, 2, 3])
+        ln = L * rng.range(12, 60) - rng.below(L)
+        f = TFile(ln, [b"many%d" % i], gen_content(rng, ln))
+        g = GT(b"many%d" % i, L, [f], False)
+        w.gts.append(g)
+        if i == 0 or rng.chance(1, 2):
+            w.add_file((b"scan0", b"src%d" % i), f.content if rng.chance(3, 4) else corrupt(rng, f.content))
+    w.docs = [g.doc for g in w.gts]
+    w.add_file((b"bystander", b"note.txt"), b"do not touch")
+    w.tag = "many pieces"
     return w
 
 
